@@ -120,8 +120,10 @@ def run(ctx):
         if i < 0:
             continue
         e = byid[i]
-        if clause.startswith("crash point unknown") or (clause.startswith("the injected failure did not surface")
-                                                        and e["out_fresh"] != "raised"):
+        if clause.startswith("the injected failure did not surface") and e["hooks"] > 0:
+            clause = "forward/backward hooks were left on the model (and masked a later registration failure)"
+        elif clause.startswith("crash point unknown") or (clause.startswith("the injected failure did not surface")
+                                                          and e["out_fresh"] != "raised"):
             raise core.Machinery("crash injection failed for %s %s: %s" % (e["func"], e["crash"], clause))
         ctx.violation("M1", "%s with crash point %s (history %s): %s" % (e["func"], e["crash"], meta[i], clause),
                       dict(mode="hist", hist=[[f, list(cp)] for (f, cp) in meta[i]]), cls="%s/%s/%s" % (e["func"], e["crash"][1], clause))
